@@ -412,11 +412,12 @@ package ro
 //@ func FromChannel$1$1
 //@   note the reader goroutine of FromChannel
 //@   props C17 C08
-//@   track destination.* loop.* chselect
-//@   ensures [ends-by-completion-or-done|C17] trace(loop.L0, chselect) || trace(loop.L0, chselect, destination.CompleteWithContext(ctx))
+//@   note every wait of the reader is one blocking select over the input channel and the teardown's done channel: it is never parked on the input alone, nor does it poll
+//@   track destination.* loop.* chselect chpoll chrecv.ANY
+//@   ensures [ends-by-completion-or-done|C17,C14] trace(loop.L0, chselect(in, done)) || trace(loop.L0, chselect(in, done), destination.CompleteWithContext(ctx))
 
 //@ loop FromChannel$1$1#0
-//@   iteration emits chselect, destination.NextWithContext(ctx, received)
+//@   iteration emits chselect(in, done), destination.NextWithContext(ctx, received)
 
 // ToChannel (operator_sink.go): one channel of the configured capacity, one blocking send per upstream
 // notification, closed (through sync.Once) after the terminal notification and by the teardown.
@@ -430,19 +431,19 @@ package ro
 //@ func ToChannel$1$1$2$1
 //@   note upstream Next
 //@   props C17 C08
-//@   track chsend.* chselect destination.* call.Once.Do
+//@   track chsend.* chselect chpoll destination.* call.Once.Do
 //@   ensures [one-blocking-send-per-value|C17,C08] trace(chsend.ch(_, fields(0, value, _)))
 
 //@ func ToChannel$1$1$2$2
 //@   note upstream Error
 //@   props C17 C08
-//@   track chsend.* chselect destination.* call.Once.Do
+//@   track chsend.* chselect chpoll destination.* call.Once.Do
 //@   ensures [terminal-sent-then-closed-then-completed|C17,C08] trace(chsend.ch(_, fields(1, _, err)), call.Once.Do, destination.CompleteWithContext(ctx))
 
 //@ func ToChannel$1$1$2$3
 //@   note upstream Complete
 //@   props C17 C08
-//@   track chsend.* chselect destination.* call.Once.Do
+//@   track chsend.* chselect chpoll destination.* call.Once.Do
 //@   ensures [terminal-sent-then-closed-then-completed|C17,C08] trace(chsend.ch(_, fields(2, _, _)), call.Once.Do, destination.CompleteWithContext(ctx))
 
 //@ func ToChannel$1$1$1$1
@@ -472,19 +473,19 @@ package ro
 //@ func detachOn$1$1$2$1
 //@   note upstream Next
 //@   props C08 C09
-//@   track chsend.* chselect destination.* call.Once.Do
+//@   track chsend.* chselect chpoll destination.* call.Once.Do
 //@   ensures [one-blocking-send-per-value|C08] trace(chsend.ch(_, fields(ctx, fields(0, value, _))))
 
 //@ func detachOn$1$1$2$2
 //@   note upstream Error
 //@   props C08 C09
-//@   track chsend.* chselect destination.* call.Once.Do
+//@   track chsend.* chselect chpoll destination.* call.Once.Do
 //@   ensures [terminal-queued-like-a-value-then-closed|C08] trace(chsend.ch(_, fields(ctx, fields(1, _, err))), call.Once.Do)
 
 //@ func detachOn$1$1$2$3
 //@   note upstream Complete
 //@   props C08 C09
-//@   track chsend.* chselect destination.* call.Once.Do
+//@   track chsend.* chselect chpoll destination.* call.Once.Do
 //@   ensures [terminal-queued-like-a-value-then-closed|C08] trace(chsend.ch(_, fields(ctx, fields(2, _, _))), call.Once.Do)
 
 //@ func detachOn$1$1$3
@@ -702,11 +703,11 @@ package ro
 //@ func Interval$1$1
 //@   note the ticking goroutine of Interval: value k is emitted on the k-th tick received, nothing is emitted without a tick
 //@   props C16 C09
-//@   track destination.* loop.* chselect
+//@   track destination.* loop.* chselect chpoll chrecv.ANY
 //@   ensures [completes-when-told-to-stop|C16] trace(loop.L0, chselect, destination.CompleteWithContext(ctx))
 
 //@ loop Interval$1$1#0
-//@   iteration ensures count(chselect) == 1 && count(destination.NextWithContext) <= 1 && before(chselect, destination.NextWithContext)
+//@   iteration ensures count(chselect) == 1 && count(chpoll) == 0 && count(chrecv.ANY) == 0 && count(destination.NextWithContext) <= 1 && before(chselect, destination.NextWithContext)
 //@   iteration ensures called(destination.NextWithContext) ==> arg(destination.NextWithContext, 0) == ctx && arg(destination.NextWithContext, 1) == value
 
 // ---------------------------------------------------------------------------
